@@ -90,6 +90,10 @@ func NewDiskQueue(name string, dataPath string, maxBytesPerFile int64, syncEvery
 		log.Printf("ERROR: diskqueue(%s) failed to retrieveMetaData - %s", d.name, err.Error())
 	}
 
+	// a previous incarnation may have died after writing beyond the persisted
+	// write position; drop that tail so that the reader can never buffer it
+	d.truncateStaleTail()
+
 	go d.ioLoop()
 
 	return &d
@@ -399,6 +403,21 @@ func (d *DiskQueue) retrieveMetaData() error {
 	d.nextReadPos = d.readPos
 
 	return nil
+}
+
+// truncateStaleTail cuts the current write file back to the persisted write position.
+// Anything beyond it was never covered by a completed sync and would otherwise be
+// picked up by the read-ahead buffer and later be overwritten by new writes.
+func (d *DiskQueue) truncateStaleTail() {
+	fn := d.fileName(d.writeFileNum)
+	fi, err := os.Stat(fn)
+	if err != nil || fi.Size() <= d.writePos {
+		return
+	}
+	err = os.Truncate(fn, d.writePos)
+	if err != nil {
+		log.Printf("ERROR: diskqueue(%s) failed to truncate %s to %d - %s", d.name, fn, d.writePos, err.Error())
+	}
 }
 
 // persistMetaData atomically writes state to the filesystem
